@@ -342,6 +342,9 @@ TEMPLATES = [
     ('3-d array: two indices, the first zero', 'c int[2,2,2] = [[[1,2],[3,4]],[[5,6],[7,8]]]', '{{?c}[0,1]}', '[3, 4]'), ('3-d array: three indices with zeros', 'c int[2,2,2] = [[[1,2],[3,4]],[[5,6],[7,8]]]', '{{?c}[0,1,0]:d}', '3'),
     ('3-d array: index, zero, range', 'c int[2,2,2] = [[[1,2],[3,4]],[[5,6],[7,8]]]', '{{?c}[1,0,:]}', '[5, 6]'), ('row zero of a matrix', 'w float[2,3] = [[1.5,2.5,3.5],[4.5,5.5,6.5]]', '{{?w}[0]}', '[1.5, 2.5, 3.5]'),
     ('element zero of a vector', 'v int[3] = [7,8,9]', '{{?v}[0]:03d}', '007'), ('string character zero', "name str = 'Tina'", '{{?name}[0]}', 'T'),
+    ('two elements of one array with the same format', 'size float[2] = [14.2378,3.5]', '{{?size}[0]:.2f} x {{?size}[1]:.2f}', '14.24 x 3.50'),
+    ('two slices of one string', 'name str = "Will Smith"', '{{?name}[:4]}/{{?name}[5:]}', 'Will/Smith'), ('whole array and one element', 'v int[2] = [7,8]', '{{?v}} {{?v}[1]}', '[7, 8] 8'),
+    ('one element three times in changing order', 'v int[2] = [7,8]', '{{?v}[1]} {{?v}[0]} {{?v}[1]}', '8 7 8'), ('one node with three formats', 'h float = 1.5', '{{?h}:.1f} {{?h}:.3f} {{?h}}', '1.5 1.500 1.5'),
     ('float with unit only value is rendered', 'h float = 2 m', '{{?h}:.0f}', '2'), ('int as float format', 'k int = 3', '{{?k}:.1f}', '3.0'), ('zero', 'k int = 0', '{{?k}:03d}', '000'),
 ]
 
